@@ -448,7 +448,7 @@ Fixpoint st_join (a b : stree) : res stree :=
         else kids cb
       | KdCustom =>
         if negb (kind_eqb (nkind na) (nkind nb)) then Err ValueError
-        else if negb (Z.eqb (snd (node_type na)) (snd (node_type nb))) then Err ValueError
+        else if negb (opt_reg_eqb (ncustom na) (ncustom nb)) then Err ValueError
         else if negb (Nat.eqb (narity na) (narity nb)) then Err ValueError
         else if negb (ndata_eqb (ndat na) (ndat nb)) then Err ValueError
         else kids cb
